@@ -283,7 +283,8 @@ def e2e(ctx, model_ok):
                     ctx.disagree("Model/PathSafe.v checked_target = None vs Metadata refusing the metafile with ValueError",
                                  {"name": c["name"], "path": c["path"]}, "refuses" if m_refuses else "accepts",
                                  f"error={rep.get('error')}")
-                elif not m_refuses and c["path"] and c["path"][-1] in CANDIDATES and not c.get("second"):
+                elif not m_refuses and c["path"] and c["path"][-1] in CANDIDATES and not c.get("second") and \
+                        "File name too long" not in (rep.get("error") or ""):      # a 300-byte element: the file system's limit, not the tool's
                     want = "/".join(bytes.fromhex(h).decode() for h in model[c["index"]].split(",")[1:])
                     if want not in r["inside"]:
                         ctx.disagree("Model/PathSafe.v checked_target vs where the file was copied",
